@@ -221,7 +221,11 @@ def obsCase (e : Option Err) (refs : List (Option Err)) (trim : List Str := []) 
       pList ["isany", pBool (isAnyB Full e refs)],
       pList ["isanyhalf", pBool (isAnyB Full e (refs.take (refs.length / 2)))],
       pList ["isanyx", pList ([refs.drop (refs.length / 2), (refs.drop (refs.length / 2)).reverse,
-        refs.drop (refs.length - 4), (refs.drop (refs.length - 4)).reverse].map (fun l => pBool (isAnyB Full e l)))]]
+        refs.drop (refs.length - 4), (refs.drop (refs.length - 4)).reverse].map (fun l => pBool (isAnyB Full e l)))],
+      -- after a hop no reference is identical to a layer any more: every match is by mark
+      -- equivalence, at any position of the tree (multi-cause branches included)
+      pList ["h1isanyx", pOpt (fun x => pList ((((refs.take 4).map (fun r => [r])) ++ [refs.take (refs.length / 2)]).map
+        (fun l => pBool (isAnyB Full x l)))) h1]]
 
 mutual
 /-- the Error() texts of every node, hidden parts (barrier, secondary) included -/
